@@ -42,6 +42,18 @@ BASE = {"cfg": {"algo": "SHA-256", "depth": 2, "width": 2}, "contents": [{"hex":
         "docs": [{"hex": "763020" * 3}, {"pat": "7631", "n": 9000}, {"hex": "7632"}]}
 
 
+_AB_C = [{"op": "smeta", "pid": "ab", "fmt": "c", "d": 0}, {"op": "smeta", "pid": "a", "fmt": "bc", "d": 0}]
+DIFFERENT_DOCS = {
+    "colliding-concatenation/store-store": ([], {"op": "smeta", "pid": "ab", "fmt": "c", "d": 1}, {"op": "smeta", "pid": "a", "fmt": "bc", "d": 2}),
+    "colliding-concatenation/overwrite-overwrite": (_AB_C, {"op": "smeta", "pid": "ab", "fmt": "c", "d": 1}, {"op": "smeta", "pid": "a", "fmt": "bc", "d": 2}),
+    "colliding-concatenation/store-delete": (_AB_C, {"op": "smeta", "pid": "ab", "fmt": "c", "d": 1}, {"op": "dmeta", "pid": "a", "fmt": "bc"}),
+    "colliding-concatenation/store-read": (_AB_C, {"op": "smeta", "pid": "ab", "fmt": "c", "d": 1}, {"op": "rmeta", "pid": "a", "fmt": "bc"}),
+    "same-pid-other-format/store-store": ([], {"op": "smeta", "pid": "p", "fmt": F, "d": 1}, {"op": "smeta", "pid": "p", "fmt": "fmt:2", "d": 2}),
+    "same-pid-default-and-other-format/store-store": ([], {"op": "smeta", "pid": "p", "fmt": None, "d": 1}, {"op": "smeta", "pid": "p", "fmt": F, "d": 2}),
+    "other-pid-same-format/store-store": ([], {"op": "smeta", "pid": "p", "fmt": F, "d": 1}, {"op": "smeta", "pid": "q", "fmt": F, "d": 2}),
+}
+
+
 def examples(tier):
     return 1600 if tier == "quick" else 20000
 
@@ -77,6 +89,13 @@ def enumerate_cases(tier):
                 yield dict(BASE, start_name="hwp:metadata-doc-delete", start=docs, mode="gen", order=[0, 1, 2],
                            calls=[{"op": "dmeta", "pid": "p", "fmt": F}, waiter, passer],
                            preemptions=[list(x) for x in c07.hwp_preemptions(a)], family="holder-waiter-passer-by")
+    # calls on DIFFERENT documents commute - whatever the identifiers look like (same pid / other format, other pid / same
+    # format, pairs whose pid+format concatenations coincide) and whether the two callers share a FileHashStore object or
+    # each opened its own on the same directory: any interference (a shared staging name, a shared buffer) shows here
+    for name, (start, a, b) in DIFFERENT_DOCS.items():
+        for inst in (None, [0, 1]):
+            yield dict(BASE, start_name="different-documents:" + name, start=start, calls=[a, b], mode="enum", max_preempt=1,
+                       instances=inst, family="different-documents")
     for sname in STARTS:
         for a, b in itertools.combinations_with_replacement(range(len(MENU)), 2):
             two = tier == "thorough" or (has_delete(MENU[a]) and has_delete(MENU[b]))
@@ -157,11 +176,12 @@ def run_case(case, ctx):
         n = 0
         for order, pre, ex in conc.single_preemption_schedules(world, calls, max_preempt=case.get("max_preempt", 1),
                                                                 firsts=case.get("firsts", (0, 1)),
-                                                                i_mod=tuple(case.get("i_mod", (1, 0)))):
+                                                                i_mod=tuple(case.get("i_mod", (1, 0))),
+                                                                **({"instances": case["instances"]} if case.get("instances") else {})):
             ctx.count()
             n += 1
             judge(ctx, world, case, calls, order, pre, ex)
-            if pre and confl:
+            if pre and (confl or case.get("family") == "different-documents"):
                 ctx.nontrivial([case["start_name"], [conc.op_pattern(c, world) + str(c.get("d")) for c in calls], order, pre, ex.outcomes])
             if any(ex.waited):
                 ctx.classify("some-thread-waited")
